@@ -291,7 +291,8 @@ package state
 //@   modifies s.stateObjects[_]
 //@   ensures r != nil ==> r.address == addr
 //@ func (s *StateDB) createObject(addr common.Address) (newobj, prev *stateObject)
-//@   for C08
+//@   for C08 C09
 //@   requires s != nil && s.journal != nil && s.journal.dirties != nil && s.stateObjectsDestruct != nil
 //@   modifies *
 //@   atcall journal.append requires [journalsTheDestructMarkOfTheAddress] dyntype(entry) == typeid(resetObjectChange) ==> unbox(entry, resetObjectChange).prevdestruct == old(has(s.stateObjectsDestruct, addr)) && unbox(entry, resetObjectChange).prev != nil && unbox(entry, resetObjectChange).prev.address == addr
+//@   ensures [returnsThePreviousLiveObject] prev == ite(result(StateDB.getDeletedStateObject) != nil && !old(result(StateDB.getDeletedStateObject).deleted), result(StateDB.getDeletedStateObject), nil)
